@@ -34,7 +34,10 @@ type kase struct {
 	ID   int               `json:"id"`
 	Op   string            `json:"op"`
 	Args []json.RawMessage `json:"args"`
-	Fn   []json.RawMessage `json:"fn"`
+	// WArgs: the same arguments with causal (vector-clock) wrappers around some nodes (tla.WrapCausal; the process
+	// must have PGO_TRACE_DIR in its environment at start). The call is made a second time on them.
+	WArgs []json.RawMessage `json:"wargs"`
+	Fn    []json.RawMessage `json:"fn"`
 	Subs []sub             `json:"subs"`
 }
 
@@ -44,6 +47,10 @@ type result struct {
 	Val    interface{}   `json:"val,omitempty"`
 	Detail string        `json:"detail,omitempty"`
 	Args   []interface{} `json:"args_rep,omitempty"` // the arguments as the runtime holds them (iteration order)
+	WOut   string        `json:"wout,omitempty"`     // outcome of the call on the causally wrapped arguments
+	WVal   interface{}   `json:"wval,omitempty"`
+	WDet   string        `json:"wdetail,omitempty"`
+	Wrapped int          `json:"wrapped,omitempty"`  // number of wrappers actually present in the built arguments
 }
 
 func build(raw json.RawMessage) tla.Value {
@@ -68,6 +75,10 @@ func build(raw json.RawMessage) tla.Value {
 		var s string
 		json.Unmarshal(arr[1], &s)
 		return tla.MakeString(s)
+	case "W":
+		wrapCount++
+		clock := tla.VClock{}.Inc("AClient", tla.MakeNumber(int32(wrapCount%3)))
+		return tla.WrapCausal(build(arr[1]), clock)
 	case "S", "T":
 		var ms []json.RawMessage
 		json.Unmarshal(arr[1], &ms)
@@ -89,6 +100,37 @@ func build(raw json.RawMessage) tla.Value {
 		return tla.MakeRecord(fields)
 	}
 	panic("bad tag " + tag)
+}
+
+var wrapCount int
+
+func countWrapped(v tla.Value) int {
+	n := 0
+	if v.GetVClock() != nil {
+		n++
+		v = v.StripVClock()
+	}
+	switch {
+	case v.IsSet():
+		it := v.AsSet().Iterator()
+		for !it.Done() {
+			k, _, _ := it.Next()
+			n += countWrapped(k)
+		}
+	case v.IsTuple():
+		it := v.AsTuple().Iterator()
+		for !it.Done() {
+			_, e := it.Next()
+			n += countWrapped(e)
+		}
+	case v.IsFunction():
+		it := v.AsFunction().Iterator()
+		for !it.Done() {
+			k, e, _ := it.Next()
+			n += countWrapped(k) + countWrapped(e)
+		}
+	}
+	return n
 }
 
 func dump(v tla.Value) interface{} {
@@ -349,8 +391,34 @@ func call(k kase, a []tla.Value) tla.Value {
 	panic("harness: unknown operator " + k.Op)
 }
 
+func runWrapped(k kase, res *result) {
+	defer func() {
+		if r := recover(); r != nil {
+			if e, ok := r.(error); ok && errors.Is(e, tla.ErrTLAType) {
+				res.WOut, res.WDet = "tlatype", e.Error()
+			} else {
+				res.WOut, res.WDet = "panic", fmt.Sprint(r)
+			}
+			if len(res.WDet) > 200 {
+				res.WDet = res.WDet[:200]
+			}
+			res.WVal = nil
+		}
+	}()
+	a := make([]tla.Value, len(k.WArgs))
+	for i, r := range k.WArgs {
+		a[i] = build(r)
+		res.Wrapped += countWrapped(a[i])
+	}
+	v := call(k, a)
+	res.WOut, res.WVal = "ok", dump(v)
+}
+
 func runCase(k kase) (res result) {
 	res.ID = k.ID
+	if len(k.WArgs) > 0 {
+		defer runWrapped(k, &res)
+	}
 	defer func() {
 		if r := recover(); r != nil {
 			if e, ok := r.(error); ok && errors.Is(e, tla.ErrTLAType) {
